@@ -1,11 +1,118 @@
-(* C27 - Repetition/definition levels encode nesting losslessly. Property theorems only. *)
+(* C27 - Repetition/definition levels encode nesting losslessly. Property theorems only.
+
+   [call]            : the public RepDefBuilder calls of one page, outermost layer first
+   [spec_top cs]     : model-independent meaning of the calls: per layer the validity AND-ed with all
+                       enclosing layers (what Arrow defines) and the normalized offsets (null lists
+                       have length 0); None if the calls are not well formed (lengths disagree,
+                       offsets not sorted, a list behind a null ancestor is not empty)
+   [roundtrip cs]    : RepDefBuilder::serialize followed by CompositeRepDefUnraveler over all layers,
+                       in the transcription of repdef.rs (Model_RepDef.v)                              *)
 From LanceV Require Import Common.Base Codec.Model_RepDef Codec.Proofs_RepDef.
 Local Open Scope N_scope.
 
-Example C27_basic_roundtrip :
-  roundtrip [COffsets [0;2;2;5] (Some [true;false;true]); COffsets [0;1;3;5;5;9] (Some [true;true;true;false;true]);
-             CValidity [true;true;true;false;false;false;true;true;false]]
-  = Ok [(Some [true; true; true; false; false; false; true; true; false], None);
-        (Some [true; true; true; false; true], Some [0; 1; 3; 5; 5; 9]);
-        (Some [true; false; true], Some [0; 2; 2; 5])].
-Proof. vm_compute. reflexivity. Qed.
+(* Round trip, for EVERY well-formed stack of validity / list layers of any depth and any lengths,
+   outside the three classes in which the real code (and the model) lose information. *)
+Theorem C27_roundtrip : forall (cs : list call) (outs : list layer_out),
+  spec_top cs = Some outs ->
+  c27_dom cs = true ->
+  Known_C27_list_of_nullable_struct_repdef cs = false ->
+  Known_C27_allvalid_list_over_nullable_items cs = false ->
+  Known_C27_allvalid_list_inside_nullable_struct cs = false ->
+  roundtrip cs = Ok (rev outs).
+Proof. exact roundtrip_correct. Qed.
+Print Assumptions C27_roundtrip.
+
+(* The reader side on its own: whatever state the (abstract) serializer is in before a suffix of the
+   layers, unravelling the levels it finally produces gives back those layers and that state.
+   This is the induction the round trip rests on; stated here because it is the lossless-ness of the
+   level encoding itself, independent of the builder. *)
+Theorem C27_unravel_inverts_serialize : forall hr hd M items rs es cr cd ms,
+  M = rev (ms ++ map lm rs) ->
+  cd = mlev (map lm rs) -> cr = mlists (map lm rs) ->
+  Forall (eok (levels_to_rep M) cd cr (mrc (map lm rs)) (rev ms)) es ->
+  uls_pre hr hd rs (es, cr, cd, ms) ->
+  forall u0, relu hr hd M items 0 0 O u0 (st_es (a_layers rs (es, cr, cd, ms))) ->
+  exists u1, unravel_st [u0] (rev (map lkind rs)) = Ok ([u1], rev (a_outs rs (es, cr, cd, ms))) /\
+             relu hr hd M items cd cr (length rs) u1 es.
+Proof. exact unravel_layers. Qed.
+Print Assumptions C27_unravel_inverts_serialize.
+
+(* The buffer-level SerializerContext follows the abstract serializer (no panic, same entries). *)
+Theorem C27_serializer_refines : forall hr hd total rs c es cr cd ms cl,
+  cinv hr hd total c es cr cd ms cl ->
+  layers_pre hr hd total rs (es, cr, cd, ms) cl ->
+  exists c', record_layers c rs = Ok c' /\
+    let '(es', cr', cd', ms') := a_layers rs (es, cr, cd, ms) in
+    cinv hr hd total c' es' cr' cd' ms' (layers_len rs (es, cr, cd, ms) cl).
+Proof. exact record_layers_ok. Qed.
+Print Assumptions C27_serializer_refines.
+
+(* ---- the known-finding classes are real: a well-formed member of each class on which the round trip fails *)
+Definition T := true. Definition F := false.
+
+(* F21 (a): a second nullable validity layer below a list with an empty list: debug_assert repdef.rs:626 *)
+Theorem C27_list_of_nullable_struct_repdef_refuted :
+  exists cs outs, Known_C27_list_of_nullable_struct_repdef cs = true /\ c27_dom cs = true /\
+                  spec_top cs = Some outs /\ roundtrip cs <> Ok (rev outs).
+Proof.
+  exists [COffsets [0;1;1] None; CValidity [T]; CValidity [F]]. eexists.
+  split; [vm_compute; reflexivity|]. split; [vm_compute; reflexivity|]. split; [vm_compute; reflexivity|].
+  vm_compute. discriminate.
+Qed.
+Print Assumptions C27_list_of_nullable_struct_repdef_refuted.
+
+(* F21 (b): zero-length validity below lists that are all null/empty: build() drops the levels *)
+Theorem C27_list_of_nullable_struct_repdef_refuted_b :
+  exists cs outs, Known_C27_list_of_nullable_struct_repdef cs = true /\ c27_dom cs = true /\
+                  spec_top cs = Some outs /\ roundtrip cs <> Ok (rev outs).
+Proof.
+  exists [COffsets [0;0;0] (Some [F;T]); CValidity []]. eexists.
+  split; [vm_compute; reflexivity|]. split; [vm_compute; reflexivity|]. split; [vm_compute; reflexivity|].
+  vm_compute. discriminate.
+Qed.
+Print Assumptions C27_list_of_nullable_struct_repdef_refuted_b.
+
+Theorem C27_allvalid_list_over_nullable_items_refuted :
+  exists cs outs, Known_C27_allvalid_list_over_nullable_items cs = true /\ c27_dom cs = true /\
+                  spec_top cs = Some outs /\ roundtrip cs <> Ok (rev outs).
+Proof.
+  exists [COffsets [0;2;3] None; CValidity [F;T;T]]. eexists.
+  split; [vm_compute; reflexivity|]. split; [vm_compute; reflexivity|]. split; [vm_compute; reflexivity|].
+  vm_compute. discriminate.
+Qed.
+Print Assumptions C27_allvalid_list_over_nullable_items_refuted.
+
+Theorem C27_allvalid_list_inside_nullable_struct_refuted :
+  exists cs outs, Known_C27_allvalid_list_inside_nullable_struct cs = true /\ c27_dom cs = true /\
+                  spec_top cs = Some outs /\ roundtrip cs <> Ok (rev outs).
+Proof.
+  exists [COffsets [0;1;1] (Some [T;F]); CValidity [T]; COffsets [0;2] None; CNoNull 2]. eexists.
+  split; [vm_compute; reflexivity|]. split; [vm_compute; reflexivity|]. split; [vm_compute; reflexivity|].
+  vm_compute. discriminate.
+Qed.
+Print Assumptions C27_allvalid_list_inside_nullable_struct_refuted.
+
+(* ---- non-vacuity: the hypotheses of C27_roundtrip hold for the stack of the Rust unit test
+   test_repdef_basic (two nullable list layers over nullable items), and the conclusion computes *)
+Example C27_nonvacuous :
+  let cs := [COffsets [0;2;2;5] (Some [T;F;T]); COffsets [0;1;3;5;5;9] (Some [T;T;T;F;T]);
+             CValidity [T;T;T;F;F;F;T;T;F]] in
+  c27_dom cs = true /\
+  Known_C27_list_of_nullable_struct_repdef cs = false /\
+  Known_C27_allvalid_list_over_nullable_items cs = false /\
+  Known_C27_allvalid_list_inside_nullable_struct cs = false /\
+  spec_top cs = Some [(Some [T;F;T], Some [0;2;2;5]); (Some [T;T;T;F;T], Some [0;1;3;5;5;9]);
+                      (Some [T;T;T;F;F;F;T;T;F], None)] /\
+  roundtrip cs = Ok [(Some [T;T;T;F;F;F;T;T;F], None); (Some [T;T;T;F;T], Some [0;1;3;5;5;9]);
+                     (Some [T;F;T], Some [0;2;2;5])].
+Proof. vm_compute. repeat split; reflexivity. Qed.
+
+(* a struct with nulls over a list with null, empty and garbage-behind-null lists over nullable items *)
+Example C27_nonvacuous_masked :
+  let cs := [CValidity [T;F;T;T]; COffsets [3;5;5;5;9] (Some [T;F;T;F]); CValidity [T;F]] in
+  c27_dom cs = true /\
+  Known_C27_list_of_nullable_struct_repdef cs = false /\
+  Known_C27_allvalid_list_over_nullable_items cs = false /\
+  Known_C27_allvalid_list_inside_nullable_struct cs = false /\
+  roundtrip cs = Ok [(Some [T;F], None); (Some [T;F;T;F], Some [0;2;2;2;2]); (Some [T;F;T;T], None)].
+Proof. vm_compute. repeat split; reflexivity. Qed.
